@@ -79,3 +79,24 @@ def spec_text(name, args, flags):
             raise KeyError("%s needs its const argument" % name)
         m = m.replace("[C]", "[K]" if args[0] else "[V]")
     return m
+
+
+# node kinds the specification assigns to each method's nonterminal (P5: class of every node a method builds)
+VALUES = ("IntValue", "FloatValue", "BooleanValue", "NullValue", "EnumValue")
+NODES = {
+    "parse_document": ("Document",), "parse_name": ("Name",), "parse_operation_definition": ("OperationDefinition",),
+    "parse_variable_definition": ("VariableDefinition",), "parse_variable": ("Variable",), "parse_selection_set": ("SelectionSet",),
+    "parse_field": ("Field",), "parse_argument": ("Argument",), "parse_fragment": ("FragmentSpread", "InlineFragment"),
+    "parse_fragment_definition": ("FragmentDefinition",), "parse_value_literal": VALUES, "parse_string_literal": ("StringValue",),
+    "parse_list": ("ListValue",), "parse_object": ("ObjectValue",), "parse_object_field": ("ObjectField",), "parse_directive": ("Directive",),
+    "parse_type_reference": ("ListType", "NonNullType"), "parse_named_type": ("NamedType",), "parse_schema_definition": ("SchemaDefinition",),
+    "parse_operation_type_definition": ("OperationTypeDefinition",), "parse_scalar_type_definition": ("ScalarTypeDefinition",),
+    "parse_object_type_definition": ("ObjectTypeDefinition",), "parse_field_definition": ("FieldDefinition",),
+    "parse_input_value_definition": ("InputValueDefinition",), "parse_interface_type_definition": ("InterfaceTypeDefinition",),
+    "parse_union_type_definition": ("UnionTypeDefinition",), "parse_enum_type_definition": ("EnumTypeDefinition",),
+    "parse_enum_value_definition": ("EnumValueDefinition",), "parse_input_object_type_definition": ("InputObjectTypeDefinition",),
+    "parse_schema_extension": ("SchemaExtension",), "parse_scalar_type_extension": ("ScalarTypeExtension",),
+    "parse_object_type_extension": ("ObjectTypeExtension",), "parse_interface_type_extension": ("InterfaceTypeExtension",),
+    "parse_union_type_extension": ("UnionTypeExtension",), "parse_enum_type_extension": ("EnumTypeExtension",),
+    "parse_input_object_type_extension": ("InputObjectTypeExtension",), "parse_directive_definition": ("DirectiveDefinition",),
+}
